@@ -169,6 +169,21 @@ func oracleLabels(ls [][]byte, emit bool) {
 			Emit("unpack", []string{Hx(w), "0"}, got)
 		}
 	}
+	// the printers (Name.String, the owner in RR.String and Question.String) leave the canonical text
+	// that UnpackDomainName produces exactly as it is
+	if valid && encodable && s != "" {
+		if p := Protect(func() string { return dns.Name(s).String() }); p != s {
+			Viol("C03/printer/name-text-changed", "Name.String() of the canonical text of a wire name differs: "+Hs(p), in)
+		}
+		q := dns.Question{Name: s, Qtype: dns.TypeA, Qclass: 1}
+		if p := Protect(func() string { return q.String() }); !strings.HasPrefix(p, ";"+s+"\t") {
+			Viol("C03/printer/name-text-changed", "Question.String() does not print the canonical text of the name: "+Hs(p), in)
+		}
+		h := dns.RR_Header{Name: s, Rrtype: dns.TypeA, Class: 1}
+		if p := Protect(func() string { return h.String() }); !strings.HasPrefix(p, s+"\t") {
+			Viol("C03/printer/name-text-changed", "RR_Header.String() does not print the canonical text of the name: "+Hs(p), in)
+		}
+	}
 	r, _ := packPlain(s, 600)
 	_, idn := dns.IsDomainName(s)
 	if valid {
@@ -322,6 +337,13 @@ func run(r *Rng, tier string, n int) {
 				}
 				ls := labelsWithShape(r, lens, alpha)
 				oracleLabels(ls, round == 0 && (first%3 == 0 || total >= 254 && total <= 258))
+				// the same shapes with content that is entirely unprintable / entirely one-character escapes:
+				// the presentation form is up to four times as long as the wire form
+				if first%2 == 0 || total >= 254 && total <= 257 {
+					for _, content := range [][]byte{{0x01}, {0xE9, 0x80, 0xFF, 0x00}, []byte(".\\;@() \"")} {
+						oracleLabels(labelsWithShape(r, lens, content), false)
+					}
+				}
 			}
 			lens := shapeForTotal(r, total, 0)
 			if lens != nil {
@@ -335,6 +357,23 @@ func run(r *Rng, tier string, n int) {
 				oracleLabels(labelsWithShape(r, []int{bad}, []byte("ab")), round == 0)
 			}
 			oracleLabels(labelsWithShape(r, []int{2, bad}, []byte("ab")), round == 0)
+		}
+	}
+	// the longest presentation forms: four maximal labels in every order, total 254 / 255 / 256 octets,
+	// every octet unprintable (four characters of text each), or only the first three labels
+	for _, shape := range [][]int{{61, 63, 63, 63}, {63, 61, 63, 63}, {63, 63, 61, 63}, {63, 63, 63, 61}, {60, 63, 63, 63}, {63, 63, 63, 60}, {62, 63, 63, 63}, {63, 63, 63, 62}, {63, 63, 63, 63}} {
+		for _, fill := range []byte{0x00, 0x01, 0x7f, 0x80, 0xe9, 0xff} {
+			for _, lastPrintable := range []bool{false, true} {
+				var ls [][]byte
+				for i, n := range shape {
+					b := fill
+					if lastPrintable && i == len(shape)-1 {
+						b = 'a'
+					}
+					ls = append(ls, bytes.Repeat([]byte{b}, n))
+				}
+				oracleLabels(ls, fill == 0x01)
+			}
 		}
 	}
 	oracleLabels(nil, true) // root
@@ -445,8 +484,13 @@ func run(r *Rng, tier string, n int) {
 	// (6) the 255-octet limit reached through a compression pointer: a suffix packed first,
 	// then prefix labels + that suffix with compress=true, expanded length 250..260
 	nptr := 0
-	for _, sufLen := range []int{2, 5, 64, 129, 200, 254} {
-		suffixLabels := labelsWithShape(r, shapeForTotal(r, sufLen, 0), []byte("suf"))
+	for si, sufLen := range []int{2, 5, 64, 129, 200, 254, 5, 64, 129, 193, 200, 254} {
+		// the second half of the list: suffixes whose text needs every kind of escape (\\ \. \DDD \;)
+		content := []byte("suf")
+		if si >= 6 {
+			content = []byte("s\\.\x00;\xe9\\")
+		}
+		suffixLabels := labelsWithShape(r, shapeForTotal(r, sufLen, 0), content)
 		if suffixLabels == nil {
 			continue
 		}
